@@ -220,6 +220,7 @@ def main(modname: str, argv=None):
     funcs = set(getattr(mod, "ENCODED", []))
     stubs = set()
     lines = []
+    slow = []
     for i in sorted(results):
         r = results[i]
         st = r.get("status")
@@ -265,6 +266,7 @@ def main(modname: str, argv=None):
                 lines.append(f"  detail: {v.get('detail', '')[:1500]}")
         if r.get("sample") is not None and len(samples) < 6:
             samples.append(r["sample"])
+        slow.append((round(float(r.get("wall_s", 0.0)), 1), json.dumps(r.get("case"), sort_keys=True, default=str)[:300]))
 
     for l in lines:
         print(l)
@@ -299,6 +301,7 @@ def main(modname: str, argv=None):
         "disagreements_checked": n_viol + n_known,
         "explanation": getattr(mod, "EXPLANATION", ""),
         "exhaustive": False,
+        "slowest_cases": [{"wall_s": w, "case": c} for w, c in sorted(slow, reverse=True)[:8]],
         "states": max(1, agg["paths"]),
         "transitions": max(1, agg["queries"]),
         "traces_validated_against_impl": n_viol + n_known + agg["inconclusive"],
